@@ -147,6 +147,9 @@ type tr struct {
 	monadic    map[*types.Func]bool
 	mutates    map[*types.Func]bool
 	usedFields map[*types.Var]bool
+	outObjs    map[types.Object]bool    // pointer out-parameters of the function being translated
+	outNames   []string                 // their names, in parameter order
+	hoisted    map[*ast.CallExpr]string // calls with pointer parameters already emitted before the condition they occur in
 	closures   []*closure
 	maps       map[*types.Var]string // package-level map variables that are read: their Lean rendering
 	mapOrder   []*types.Var
@@ -457,6 +460,8 @@ func (t *tr) closureDecl(c *closure) string {
 	t.recv, t.recvPtr = nil, true
 	t.recvName = "env"
 	t.named = nil
+	t.outNames = nil
+	t.outObjs = map[types.Object]bool{}
 	t.inoutNames = nil
 	t.env = map[types.Object]bool{}
 	t.envFuncs = map[types.Object]*types.Signature{}
@@ -861,6 +866,8 @@ func (t *tr) needsMonad(f *types.Func) bool {
 			need = true
 		case *ast.SliceExpr:
 			need = true
+		case *ast.StarExpr:
+			need = true // a nil pointer dereference panics
 		case *ast.ForStmt:
 			if !countingLoop(x) {
 				need = true // fuel exhaustion is a throw
@@ -1159,11 +1166,24 @@ func (t *tr) funcDecl(f *types.Func) string {
 		params = append(params, fmt.Sprintf("(%s : %s)", rn, t.leanType(fd, sig.Recv().Type())))
 	}
 	var muts []string
+	t.outObjs = map[types.Object]bool{}
+	t.outNames = nil
+	var outTypes []string
+	for _, i := range t.outParams(f) {
+		t.outObjs[sig.Params().At(i)] = true
+	}
 	for i := 0; i < sig.Params().Len(); i++ {
 		pv := sig.Params().At(i)
 		pn := name(pv.Name())
 		if pv.Name() == "" || pv.Name() == "_" {
 			pn = fmt.Sprintf("x%d", i)
+		}
+		if t.outObjs[pv] {
+			et := t.leanType(fd, pv.Type().Underlying().(*types.Pointer).Elem())
+			params = append(params, fmt.Sprintf("(%s_nil : Bool) (%s : %s)", pn, pn, et))
+			t.outNames = append(t.outNames, pn)
+			outTypes = append(outTypes, et)
+			continue
 		}
 		params = append(params, fmt.Sprintf("(%s : %s)", pn, t.leanType(fd, pv.Type())))
 		muts = append(muts, pn)
@@ -1191,6 +1211,12 @@ func (t *tr) funcDecl(f *types.Func) string {
 			t.fail(fd, "in-out slice parameters on a receiver-mutating method")
 		}
 		rts = append(inoutTypes, rts...)
+	}
+	if len(outTypes) > 0 {
+		if t.recvPtr || len(t.inoutNames) > 0 {
+			t.fail(fd, "pointer parameters together with a written receiver or slice parameter")
+		}
+		rts = append(rts, outTypes...)
 	}
 	ret := "Unit"
 	if len(rts) > 0 {
@@ -1221,6 +1247,9 @@ func (t *tr) funcDecl(f *types.Func) string {
 		if assigned(fd.Body, m) {
 			fmt.Fprintf(&sb, "  let mut %s := %s\n", m, m)
 		}
+	}
+	for _, nm := range t.outNames {
+		fmt.Fprintf(&sb, "  let mut %s := %s\n", nm, nm)
 	}
 	for i, nm := range t.named {
 		fmt.Fprintf(&sb, "  let mut %s := %s\n", nm, t.zero(fd, sig.Results().At(i).Type()))
@@ -1312,6 +1341,9 @@ func (t *tr) returnStmt(n *ast.ReturnStmt, vals []string) string {
 	if len(t.inoutNames) > 0 {
 		vals = append(append([]string{}, t.inoutNames...), vals...)
 	}
+	if len(t.outNames) > 0 {
+		vals = append(append([]string{}, vals...), t.outNames...)
+	}
 	if t.recvPtr {
 		vals = append([]string{t.recvName}, vals...)
 	}
@@ -1366,6 +1398,131 @@ func (t *tr) structVar(e ast.Expr) (string, bool) {
 	return "", false
 }
 
+// outParams: indices of the parameters of pointer type whose pointee is not a struct (`channel *uint8`, `bt *[]byte`):
+// results handed out through the caller's variables. Such a parameter becomes two (`<p>_nil : Bool`, `<p> : T`, the
+// pointee's value on entry) and the final pointee values are appended to the function's results; `p != nil` reads the
+// flag, `*p = v` assigns, a call site passes `nil`, `&local` or one of its own such parameters and re-binds afterwards.
+func (t *tr) outParams(f *types.Func) []int {
+	if t.funcs[f] == nil {
+		return nil
+	}
+	sig := f.Type().(*types.Signature)
+	var out []int
+	for i := 0; i < sig.Params().Len(); i++ {
+		if pt, ok := sig.Params().At(i).Type().Underlying().(*types.Pointer); ok {
+			if _, isStruct := pt.Elem().Underlying().(*types.Struct); !isStruct {
+				out = append(out, i)
+			}
+		}
+	}
+	return out
+}
+
+// outArg: how an argument for a pointer out-parameter is passed (flag, value) and which variable to re-bind ("" = none)
+func (t *tr) outArg(a ast.Expr, elem types.Type) (flag, val, rebind string) {
+	switch x := a.(type) {
+	case *ast.Ident:
+		if x.Name == "nil" {
+			return "true", t.zero(a, elem), ""
+		}
+		if o := t.p.info.Uses[x]; o != nil && t.outObjs[o] {
+			return name(x.Name) + "_nil", name(x.Name), name(x.Name)
+		}
+	case *ast.UnaryExpr:
+		if x.Op == token.AND {
+			if id, ok := x.X.(*ast.Ident); ok {
+				if o := t.p.info.Uses[id]; o != nil && t.env != nil && t.env[o] {
+					t.fail(a, "address of a captured variable")
+				}
+				return "false", name(id.Name), name(id.Name)
+			}
+		}
+	}
+	t.fail(a, "argument %s for a pointer parameter (nil, &variable or a pointer parameter of the caller are supported)", exprString(a))
+	return "", "", ""
+}
+
+// outCall: emits the call of a function with pointer out-parameters and the re-binding of the variables it writes;
+// returns the temporary holding the results and the number of ordinary results
+func (t *tr) outCall(sb *strings.Builder, c *ast.CallExpr, g *types.Func, ind string) (tmp string, nres int) {
+	sig := g.Type().(*types.Signature)
+	if t.mutatesRecv(g) || len(t.inoutParams(g)) > 0 {
+		t.fail(c, "pointer parameters together with a written receiver or slice parameter")
+	}
+	isOut := map[int]bool{}
+	for _, i := range t.outParams(g) {
+		isOut[i] = true
+	}
+	var args []string
+	if sig.Recv() != nil {
+		args = append(args, t.atom(c.Fun.(*ast.SelectorExpr).X))
+	}
+	var rebinds []string
+	for i, a := range c.Args {
+		if isOut[i] {
+			fl, v, rb := t.outArg(a, sig.Params().At(i).Type().Underlying().(*types.Pointer).Elem())
+			args = append(args, fl, v)
+			rebinds = append(rebinds, rb)
+			continue
+		}
+		args = append(args, t.atom(a))
+	}
+	tmp = t.fresh("res")
+	nres = sig.Results().Len()
+	total := nres + len(rebinds)
+	arrow := ":="
+	if t.monadic[g] {
+		arrow = "←"
+	}
+	fmt.Fprintf(sb, "%slet %s %s %s %s\n", ind, tmp, arrow, t.funcName(g), strings.Join(args, " "))
+	for k, rb := range rebinds {
+		if rb != "" {
+			fmt.Fprintf(sb, "%s%s := %s\n", ind, rb, proj(tmp, nres+k, total))
+		}
+	}
+	return tmp, nres
+}
+
+// hoistOutCall: a call with pointer out-parameters inside a condition is evaluated before the `if` — sound only for the
+// leftmost operand (through !, &&, ||, parentheses): it is evaluated first and unconditionally
+func (t *tr) hoistOutCall(sb *strings.Builder, cond ast.Expr, ind string) {
+	e := cond
+	for {
+		switch x := e.(type) {
+		case *ast.ParenExpr:
+			e = x.X
+			continue
+		case *ast.UnaryExpr:
+			if x.Op == token.NOT {
+				e = x.X
+				continue
+			}
+		case *ast.BinaryExpr:
+			if x.Op == token.LAND || x.Op == token.LOR {
+				e = x.X
+				continue
+			}
+		}
+		break
+	}
+	c, ok := e.(*ast.CallExpr)
+	if !ok {
+		return
+	}
+	g := t.callee(t.p, c)
+	if g == nil || len(t.outParams(g)) == 0 {
+		return
+	}
+	tmp, nres := t.outCall(sb, c, g, ind)
+	if nres != 1 {
+		t.fail(c, "call with pointer parameters and %d results inside a condition", nres)
+	}
+	if t.hoisted == nil {
+		t.hoisted = map[*ast.CallExpr]string{}
+	}
+	t.hoisted[c] = proj(tmp, 0, 1+len(t.outParams(g)))
+}
+
 // selPath: the Lean projection path of a field or method selection, spelling out the embedded fields a promoted name
 // goes through (`r.status` with `status` promoted from the embedded `reader` is `reader.status`); the last element
 // is the selected name itself
@@ -1413,6 +1570,15 @@ func (t *tr) assignTo(sb *strings.Builder, lhs ast.Expr, val string, define bool
 			return
 		}
 		t.fail(n, "assignment to %s", exprString(lhs))
+	case *ast.StarExpr:
+		if id, ok := x.X.(*ast.Ident); ok {
+			if o := t.p.info.Uses[id]; o != nil && t.outObjs[o] {
+				fmt.Fprintf(sb, "%sif %s_nil = true then throw \"nil pointer dereference\"\n", ind, name(id.Name))
+				fmt.Fprintf(sb, "%s%s := %s\n", ind, name(id.Name), val)
+				return
+			}
+		}
+		t.fail(n, "assignment through %s", exprString(lhs))
 	case *ast.IndexExpr:
 		idx := t.toInt(x.Index)
 		switch b := x.X.(type) {
@@ -1516,6 +1682,18 @@ func (t *tr) stmt(sb *strings.Builder, s ast.Stmt, ind string) bool {
 	case *ast.ReturnStmt:
 		var vals []string
 		if len(x.Results) == 1 {
+			// return f(p, &x, nil): a call with pointer out-parameters
+			if c, ok := x.Results[0].(*ast.CallExpr); ok {
+				if g := t.callee(t.p, c); g != nil && t.funcs[g] != nil && len(t.outParams(g)) > 0 {
+					tmp, nres := t.outCall(sb, c, g, ind)
+					total := nres + len(t.outParams(g))
+					for i := 0; i < nres; i++ {
+						vals = append(vals, proj(tmp, i, total))
+					}
+					fmt.Fprintf(sb, "%s%s\n", ind, t.returnStmt(x, vals))
+					return true
+				}
+			}
 			// return recv.m(args) with a method that writes to its receiver (possibly promoted from an embedded struct)
 			if c, ok := x.Results[0].(*ast.CallExpr); ok {
 				if g := t.callee(t.p, c); g != nil && t.funcs[g] != nil && g.Type().(*types.Signature).Recv() != nil && t.mutatesRecv(g) {
@@ -1604,6 +1782,19 @@ func (t *tr) stmt(sb *strings.Builder, s ast.Stmt, ind string) bool {
 		}
 		for _, sp := range gd.Specs {
 			vs := sp.(*ast.ValueSpec)
+			if len(vs.Names) > 1 && len(vs.Values) == 1 {
+				// var a, b = f()
+				if c, ok := vs.Values[0].(*ast.CallExpr); ok {
+					var lhs []ast.Expr
+					for _, id := range vs.Names {
+						lhs = append(lhs, id)
+					}
+					if t.callStmt(sb, c, lhs, true, ind) {
+						continue
+					}
+				}
+				t.fail(s, "var declaration form")
+			}
 			for i, id := range vs.Names {
 				obj := t.p.info.Defs[id]
 				if id.Name == "_" {
@@ -1751,6 +1942,7 @@ func isBuiltin(c *ast.CallExpr, nm string) bool {
 }
 
 func (t *tr) ifStmt(sb *strings.Builder, x *ast.IfStmt, ind string) {
+	t.hoistOutCall(sb, x.Cond, ind)
 	fmt.Fprintf(sb, "%sif %s then\n", ind, t.cond(x.Cond))
 	t.block(sb, x.Body.List, ind+"  ")
 	switch e := x.Else.(type) {
@@ -1800,21 +1992,20 @@ func (t *tr) switchStmt(sb *strings.Builder, x *ast.SwitchStmt, ind string) {
 	cur := ind
 	for i, cc := range cases {
 		var cs []string
-		for _, e := range cc.List {
-			if x.Tag != nil {
-				if b, ok := t.p.info.Types[x.Tag].Type.Underlying().(*types.Basic); ok && b.Info()&types.IsBoolean != 0 {
-					cs = append(cs, fmt.Sprintf("%s = %s", tag, t.expr(e)))
-				} else {
-					cs = append(cs, fmt.Sprintf("%s = %s", tag, t.expr(e)))
-				}
-			} else {
-				cs = append(cs, t.cond(e))
-			}
-		}
 		kw := "if"
 		if i > 0 {
 			fmt.Fprintf(sb, "%selse\n", cur)
 			cur += "  "
+		}
+		if x.Tag == nil && len(cc.List) == 1 {
+			t.hoistOutCall(sb, cc.List[0], cur)
+		}
+		for _, e := range cc.List {
+			if x.Tag != nil {
+				cs = append(cs, fmt.Sprintf("%s = %s", tag, t.expr(e)))
+			} else {
+				cs = append(cs, t.cond(e))
+			}
 		}
 		fmt.Fprintf(sb, "%s%s %s then\n", cur, kw, strings.Join(cs, " ∨ "))
 		t.block(sb, cc.Body, cur+"  ")
@@ -1969,6 +2160,19 @@ func (t *tr) callStmt(sb *strings.Builder, c *ast.CallExpr, lhs []ast.Expr, defi
 		return false
 	}
 	sig := g.Type().(*types.Signature)
+	if len(t.outParams(g)) > 0 {
+		tmp, nres := t.outCall(sb, c, g, ind)
+		total := nres + len(t.outParams(g))
+		if lhs != nil {
+			if len(lhs) != nres {
+				t.fail(c, "call with %d results assigned to %d", nres, len(lhs))
+			}
+			for i, l := range lhs {
+				t.assignTo(sb, l, proj(tmp, i, total), define, ind, c)
+			}
+		}
+		return true
+	}
 	var args []string
 	recvVar := ""
 	ptrRecv := false
@@ -1977,11 +2181,14 @@ func (t *tr) callStmt(sb *strings.Builder, c *ast.CallExpr, lhs []ast.Expr, defi
 			t.fail(c, "method value")
 		}
 		sv, ok := t.structVar(sel.X)
+		ptrRecv = t.mutatesRecv(g)
 		if !ok {
-			t.fail(c, "method call on %s", exprString(sel.X))
+			if ptrRecv {
+				t.fail(c, "method call on %s", exprString(sel.X))
+			}
+			sv = t.atom(sel.X) // a value receiver that is not a struct variable (a named slice type ...)
 		}
 		recvVar = sv
-		ptrRecv = t.mutatesRecv(g)
 		args = append(args, sv)
 	}
 	for _, a := range c.Args {
@@ -2249,7 +2456,20 @@ func (t *tr) expr(e ast.Expr) string {
 		}
 		lt := t.p.info.Types[x.X].Type
 		return t.binary(e, x.Op, t.operand(x.X, x.Op), t.operand(x.Y, x.Op), tv.Type, t.p.info.Types[x.Y].Type) + func() string { _ = lt; return "" }()
+	case *ast.StarExpr:
+		if id, ok := x.X.(*ast.Ident); ok {
+			if o := t.p.info.Uses[id]; o != nil && t.outObjs[o] {
+				return fmt.Sprintf("(← (if %s_nil = true then throw \"nil pointer dereference\" else pure %s : Except String _))", name(id.Name), name(id.Name))
+			}
+		}
+		t.fail(e, "dereference %s", exprString(e))
 	case *ast.CallExpr:
+		if h, ok := t.hoisted[x]; ok {
+			return h
+		}
+		if g := t.callee(t.p, x); g != nil && len(t.outParams(g)) > 0 {
+			t.fail(e, "call of %s (pointer parameters) in this position: only as a statement, an assignment or the leftmost operand of a condition", g.Name())
+		}
 		return t.callExpr(x, tv)
 	case *ast.IndexExpr:
 		if mv := t.pkgMap(x.X); mv != nil {
@@ -2443,6 +2663,14 @@ func (t *tr) cond(e ast.Expr) string {
 		case token.EQL, token.NEQ:
 			// nil comparisons of function fields and slices
 			if id, ok := x.Y.(*ast.Ident); ok && id.Name == "nil" {
+				if pid, ok := x.X.(*ast.Ident); ok {
+					if o := t.p.info.Uses[pid]; o != nil && t.outObjs[o] {
+						if x.Op == token.EQL {
+							return name(pid.Name) + "_nil = true"
+						}
+						return name(pid.Name) + "_nil = false"
+					}
+				}
 				if sel, ok := x.X.(*ast.SelectorExpr); ok {
 					if s, ok := t.p.info.Selections[sel]; ok {
 						if _, isFn := s.Type().Underlying().(*types.Signature); isFn {
